@@ -61,9 +61,15 @@ fn tagset(k: usize) -> Vec<String> {
 
 /// Feature universe: tags on feature (3) x rule (3) x three scenarios (4 each).
 pub fn features() -> Vec<gherkin::Feature> {
+    features_t(false)
+}
+
+/// Thorough: all four tag sets on feature and rule as well.
+pub fn features_t(thorough: bool) -> Vec<gherkin::Feature> {
     let mut out = Vec::new();
-    for ft in 0..3 {
-        for rt in 0..3 {
+    let top = if thorough { 4 } else { 3 };
+    for ft in 0..top {
+        for rt in 0..top {
             for s1 in 0..4 {
                 for s2 in 0..4 {
                     for s3 in 0..4 {
@@ -102,6 +108,24 @@ pub fn features() -> Vec<gherkin::Feature> {
         }
     }
     out
+}
+
+/// Thorough: formulas of depth 3 as well (a depth-2 formula combined with an atom, negated).
+pub fn formulas_t(thorough: bool) -> Vec<TagExpr> {
+    let mut v = formulas();
+    if thorough {
+        let t = |s: &str| TagExpr::Tag(s.into());
+        let atoms = vec![t("a"), t("b"), TagExpr::Not(Box::new(t("a"))), TagExpr::Not(Box::new(t("b")))];
+        let deep: Vec<TagExpr> = v[4..].to_vec();
+        for f in &deep {
+            for a in &atoms {
+                v.push(TagExpr::And(Box::new(f.clone()), Box::new(a.clone())));
+                v.push(TagExpr::Or(Box::new(a.clone()), Box::new(f.clone())));
+            }
+            v.push(TagExpr::Not(Box::new(f.clone())));
+        }
+    }
+    v
 }
 
 pub fn formulas() -> Vec<TagExpr> {
@@ -419,8 +443,8 @@ fn order_checks(a: &ShardArgs, violations: &mut Vec<serde_json::Value>) -> usize
 }
 
 pub fn run(a: &ShardArgs) -> serde_json::Value {
-    let feats = features();
-    let forms = formulas();
+    let feats = features_t(a.thorough);
+    let forms = formulas_t(a.thorough);
     let fcs = filter_cfgs(forms.len());
     let chunk = if a.thorough { 1 } else { 4 };
     // quick: features in groups of 4 (several features per run also checks order)
@@ -480,7 +504,7 @@ pub fn run(a: &ShardArgs) -> serde_json::Value {
         "property": "C15", "tier": a.tier,
         "total_configs": fcs.len() * groups.len(), "configs_done": evaluations, "configs_skipped_budget": skipped,
         "evaluations": evaluations, "distinct_nontrivial": nontrivial,
-        "rule": format!("{} filter configurations ({} tag formulas of depth <= 2 over {{a,b}} directly and through clap, 4 name regexes, 4 closures, precedence combinations) x {} feature groups; plus 14 builder methods applied after with_cli(filter) x 3 filters, each in a child process with a clean argv (576 features: tags on feature x rule x scenarios); non-trivial = the filter keeps some but not all scenarios", fcs.len(), forms.len(), groups.len()),
+        "rule": format!("{} filter configurations ({} tag formulas of depth <= 2 (thorough: 3) over {{a,b}} directly and through clap, 4 name regexes, 4 closures, precedence combinations) x {} feature groups; plus 14 builder methods applied after with_cli(filter) x 3 filters, each in a child process with a clean argv ({} features: tags on feature x rule x scenarios); non-trivial = the filter keeps some but not all scenarios", fcs.len(), forms.len(), groups.len(), feats.len()),
         "exhaustive": skipped == 0,
         "violations": violations, "samples": samples,
     })
@@ -500,8 +524,9 @@ pub fn replay(j: &serde_json::Value) -> i32 {
             }
         };
     }
-    let feats = features();
-    let forms = formulas();
+    let thorough = j["tier"].as_str() == Some("thorough");
+    let feats = features_t(thorough);
+    let forms = formulas_t(thorough);
     let fcs = filter_cfgs(forms.len());
     let chunk = j["chunk"].as_u64().unwrap() as usize;
     let groups: Vec<&[gherkin::Feature]> = feats.chunks(chunk).collect();
